@@ -1,5 +1,8 @@
-Require Import DS.Base DS.Parser DS.ParserSpec.
+Require Import DS.Base DS.Parser DS.ParserSpec DS.Render DS.ParserClasses.
+Require DS.ParserIx.
+Definition ix_parse_text := DS.ParserIx.parse_text.
 Require Import ExtrOcamlBasic.
 Extraction Language OCaml.
 Extraction "../ocaml/gen/c08_model.ml" N.of_nat N.to_nat Z.of_N Z.to_N
-  is_ws lines parse_line parse_text line_error no_include_args blank_or_comment.
+  is_ws lines parse_line parse_text line_error no_include_args blank_or_comment
+  render_bad valid_bad class_of class_kind render_line wf valid ix_parse_text.
